@@ -276,7 +276,7 @@ def run(ctx):
             ctx.violations[k] = ("replayed case still fails", payload)
         shutil.rmtree(scratch, ignore_errors=True)
         return ctx.finish(RULE, False, [])
-    total = 12000 if ctx.thorough else 640
+    total = 6000 if ctx.thorough else 640
     infra = core.hypothesis_search(ctx, "pyv.c16", total)
     scratch = core.make_scratch("C16", "kf")
     rc = ctx.finish(RULE, False, [
